@@ -15,7 +15,7 @@ FULL = [
     ('UIN', 2, ['0', '21845', '43690', '65534', '1', '-']), ('SIN', 2, ['0', '-1', '21845', '-21846']), ('UIR', 2, ['0', '21845', '43690', '65534']),
     ('D2C', 2, ['0.00', '1.00', '-1.00', '100.50']), ('D2B', 2, ['0.000', '1.500', '-1.500']), ('FLT', 2, ['0.000', '1.234', '-5.678']),
     ('U3N', 3, ['0', '5592405', '11184810', '16777214']), ('S3R', 3, ['0', '-1', '5592405']),
-    ('ULG', 4, ['0', '1431655765', '2863311530', '4294967294']), ('SLR', 4, ['0', '-1', '1431655765']), ('EXP', 4, ['0.0', '1.5', '-2.25', '1e10']),
+    ('ULG', 4, ['0', '1431655765', '2863311530', '4294967294']), ('SLR', 4, ['0', '-1', '1431655765']), ('EXP', 4, ['0.0', '1.5', '-2.25', '0.5']),
     ('BCD', 1, ['0', '99', '55', '12', '88', '-']), ('BCD:2', 2, ['0', '9999', '1234', '8877']), ('BCD:3', 3, ['0', '999999', '123456']),
     ('HCD:2', 2, ['0', '9999', '1234']), ('PIN', 2, ['1234', '9999', '5678']),
     ('BDA', 4, ['01.01.2000', '31.12.2099', '15.06.2055', '28.07.2038']), ('BDA:3', 3, ['01.01.2000', '31.12.2099', '15.06.2055', '-.-.-']),
